@@ -137,6 +137,7 @@ def run(tier, seed, replay=None):
     r.cov["trusted_base"] = ["coqc 8.16.1 kernel + vm_compute", "props/c14.py (targeted omission generator, item -> Gallina term)",
                              "harness tick.rs/c14.rs (tracing interpreter, independent reference predicate, observable-change diff)"]
     r.proof_phase(THEOREMS)
+    r.tables_phase("Guard")
     if replay:
         d = json.load(open(replay))
         cases = [d["replay"]["case"]] if "case" in d.get("replay", {}) else []
